@@ -42,7 +42,7 @@ func NewStreamWrapper(sentinelOpts ...Option) server.StreamWrapper {
 	return func(stream server.Stream) server.Stream {
 		opts := evaluateOptions(sentinelOpts)
 		resourceName := stream.Request().Method()
-		if opts.serverResourceExtract != nil {
+		if opts.streamServerResourceExtract != nil {
 			resourceName = opts.streamServerResourceExtract(stream)
 		}
 		entry, blockErr := sentinel.Entry(
@@ -51,7 +51,7 @@ func NewStreamWrapper(sentinelOpts ...Option) server.StreamWrapper {
 			sentinel.WithTrafficType(base.Inbound),
 		)
 		if blockErr != nil {
-			if opts.serverBlockFallback != nil {
+			if opts.streamServerBlockFallback != nil {
 				return opts.streamServerBlockFallback(stream, blockErr)
 			}
 
